@@ -271,6 +271,9 @@ func (p *parser) parseIntLit() int {
 	pos, lit := p.pos, p.lit
 
 	if p.tok == token.CHAR {
+		if len(lit) < 3 {
+			p.errorf(pos, "expect char, got %q", lit)
+		}
 		p.acceptToken(token.CHAR)
 		return int(lit[1]) // '?'
 	}
@@ -297,6 +300,9 @@ func (p *parser) parseInt32Lit() int32 {
 	pos, lit := p.pos, p.lit
 
 	if p.tok == token.CHAR {
+		if len(lit) < 3 {
+			p.errorf(pos, "expect char, got %q", lit)
+		}
 		p.acceptToken(token.CHAR)
 		return int32(lit[1]) // '?'
 	}
